@@ -327,6 +327,10 @@ fn gen_pool(g: &mut Rng, tier: Tier) -> J {
             let w = if g.chance(2, 3) { u } else { g.below(nusers as u64) as usize };
             let to = *g.pick(&[0u64, 1, 50, 5_000, u64::MAX, u64::MAX]);
             users[w].push(J::Arr(vec!["wait".into(), i.into(), to.into()]));
+            if to <= 50 && g.chance(3, 4) {
+                // the repeated-slice pattern of any_join: a join that gave up is followed by another one on the same task
+                users[w].push(J::Arr(vec!["rewait".into(), i.into(), (*g.pick(&[50u64, 5_000, 5_000, u64::MAX])).into()]));
+            }
         }
     }
     let late_submit = g.chance(1, 4);
@@ -489,9 +493,20 @@ fn body_pool(plan: &J) {
                             rr[ti].cancelled_unstarted = true;
                         }
                     }
-                    "wait" => {
+                    "wait" | "rewait" => {
                         if recs()[ti].submit_ok != Some(true) {
                             continue;
+                        }
+                        if a[0].s() == "rewait" {
+                            // only after this task's earlier join gave up (a join that returned took the result with it)
+                            let w = WAITS.lock().unwrap_or_else(|e| e.into_inner());
+                            let gave_up = w.iter().any(|x| x.task == ti && matches!(&x.outcome, Some(Err(k)) if k == "TimedOut"));
+                            let taken = w.iter().any(|x| x.task == ti && matches!(&x.outcome, Some(Ok(_)) | None));
+                            drop(w);
+                            if !gave_up || taken {
+                                continue;
+                            }
+                            probe("task.rejoin-after-timeout");
                         }
                         let to = a[2].u();
                         let id = recs()[ti].id;
